@@ -600,7 +600,7 @@ void sexp_init_context_globals (sexp ctx) {
   vec = sexp_vector_data(sexp_global(ctx, SEXP_G_TYPES));
   for (i=0; i<SEXP_NUM_CORE_TYPES; i++) {
     type = sexp_alloc_type(ctx, type, SEXP_TYPE);
-    if (!type) {
+    if (!type || sexp_exceptionp(type)) {
       return; /* TODO - fundamental OOM, what to do here? */
     }
     memcpy(&(type->value), &(_sexp_type_specs[i]), sizeof(_sexp_type_specs[0]));
@@ -666,7 +666,8 @@ sexp sexp_make_context (sexp ctx, size_t size, size_t max_size) {
     {
       res = sexp_alloc_type(ctx, context, SEXP_CONTEXT);
 #if ! SEXP_USE_BOEHM && ! SEXP_USE_MALLOC
-      sexp_context_heap(res) = sexp_context_heap(ctx);
+      if (res && !sexp_exceptionp(res))
+        sexp_context_heap(res) = sexp_context_heap(ctx);
 #endif
     }
   if (!res || sexp_exceptionp(res)) {
@@ -745,6 +746,8 @@ sexp sexp_destroy_context (sexp ctx) {
 sexp sexp_make_exception (sexp ctx, sexp kind, sexp message, sexp irritants,
                           sexp procedure, sexp source) {
   sexp exn = sexp_alloc_type(ctx, exception, SEXP_EXCEPTION);
+  if (exn == sexp_global(ctx, SEXP_G_OOM_ERROR))
+    return exn;         /* allocation failed, don't overwrite the shared object */
   sexp_exception_kind(exn) = kind;
   sexp_exception_message(exn) = message;
   sexp_exception_irritants(exn) = irritants;
@@ -1431,6 +1434,10 @@ sexp sexp_make_string_op (sexp ctx, sexp self, sexp_sint_t n, sexp len, sexp ch)
 #else
   sexp_gc_preserve2(ctx, b, s);
   s = sexp_alloc_type(ctx, string, SEXP_STRING);
+  if (sexp_exceptionp(s)) {
+    sexp_gc_release2(ctx);
+    return s;
+  }
   sexp_string_bytes(s) = b;
   sexp_string_offset(s) = 0;
   sexp_string_size(s) = sexp_bytes_length(b);
@@ -1492,6 +1499,10 @@ sexp sexp_subbytes_op (sexp ctx, sexp self, sexp_sint_t n, sexp vec, sexp start,
   str = sexp_c_string(ctx, sexp_bytes_data(vec), sexp_bytes_length(vec));
 #else
   str = sexp_alloc_type(ctx, string, SEXP_STRING);
+  if (sexp_exceptionp(str)) {
+    sexp_gc_release1(ctx);
+    return str;
+  }
   sexp_string_bytes(str) = vec;
   sexp_string_offset(str) = 0;
   sexp_string_size(str) = sexp_bytes_length(vec);
@@ -2731,6 +2742,7 @@ sexp sexp_read_symbol (sexp ctx, sexp in, int init, int internp) {
 #if SEXP_USE_COMPLEX
 sexp sexp_make_complex (sexp ctx, sexp real, sexp image) {
   sexp res = sexp_alloc_type(ctx, complex, SEXP_COMPLEX);
+  if (sexp_exceptionp(res)) return res;
   sexp_complex_real(res) = real;
   sexp_complex_imag(res) = image;
   return res;
@@ -2899,6 +2911,7 @@ sexp sexp_read_float_tail (sexp ctx, sexp in, double whole, int negp) {
 #if SEXP_USE_RATIOS
 sexp sexp_make_ratio (sexp ctx, sexp num, sexp den) {
   sexp res = sexp_alloc_type(ctx, ratio, SEXP_RATIO);
+  if (sexp_exceptionp(res)) return res;
   sexp_ratio_numerator(res) = num;
   sexp_ratio_denominator(res) = den;
   return res;
@@ -3942,7 +3955,7 @@ sexp sexp_read_raw (sexp ctx, sexp in, sexp *shares) {
     break;
   }
 
-  if (sexp_port_sourcep(in) && sexp_pointerp(res))
+  if (sexp_port_sourcep(in) && sexp_pointerp(res) && !sexp_exceptionp(res))
     sexp_immutablep(res) = 1;
   sexp_gc_release2(ctx);
   return res;
